@@ -17,7 +17,7 @@ use crate::engine::{explore, guarded, hex, show, validate_traces, Limits, Report
 use crate::refmodel::head;
 use crate::refmodel::reqvalid::{self, ReqFacts};
 
-pub const RULE: &str = "requests: methods {GET,HEAD,POST,PUT,DELETE,OPTIONS} x versions {1.0,1.1} x original header lists of length 0..=1 (thorough 0..=2) x caller-added lists of length 0..=2 over the pool {host, content-length: 3, transfer-encoding: chunked, transfer-encoding: Chunked (mixed case), x-a: 1, x-a: 2 (repeated name), x-bin: <0x80 0xff>, cookie, connection: close} (at most one of Content-Length / Transfer-Encoding) x send-body-despite-method {no,yes}, URIs with and without path/query/port; 12 URI shapes (empty path with query, bare '?', trailing '?', '//', userinfo, upper-case host + default port, fragment, IP literal, percent-encoded delimiters, path parameters) x {GET,POST,OPTIONS} x versions x with/without caller-added Host; long requests with n added (0,1,2,59,60; thorough every n in 0..=60) and m in {0,1,5} original headers; flows at redirect depth 1..3 (states of a redirect-chain graph, with 0/1 added headers); only requests the validity model accepts; front ends Flow::<SendRequest>, Call::<WithoutBody>, Call::<WithBody>. Per request the COMPLETE graph of the writer: from every reachable state write(out) for EVERY out in 0..=|head|+1, and again in the completed state. distinct = distinct (request, front end) graphs";
+pub const RULE: &str = "requests: methods {GET,HEAD,POST,PUT,DELETE,OPTIONS} x versions {1.0,1.1} x original header lists of length 0..=1 (thorough 0..=2) x caller-added lists of length 0..=2 over the pool {host, content-length: 3, transfer-encoding: chunked, transfer-encoding: Chunked (mixed case), x-a: 1, x-a: 2 (repeated name), x-bin: <0x80 0xff>, cookie, connection: close} (at most one of Content-Length / Transfer-Encoding) x send-body-despite-method {no,yes}, URIs with and without path/query/port; 12 URI shapes (empty path with query, bare '?', trailing '?', '//', userinfo, upper-case host + default port, fragment, IP literal, percent-encoded delimiters, path parameters) x {GET,POST,OPTIONS} x versions x with/without caller-added Host; long requests with n added (0,1,2,59,60; thorough every n in 0..=60) and m in {0,1,5} original headers; flows at redirect depth 1..3 (states of a redirect-chain graph, with 0/1 added headers); only requests the validity model accepts; front ends Flow::<SendRequest>, Call::<WithoutBody>, Call::<WithBody>. Per request the COMPLETE graph of the writer: from every reachable state write(out) for EVERY out in 0..=|head|+1, and again in the completed state; on flows also the accessors method / uri / version / headers_map (which runs the request analysis early) as an action in every state. distinct = distinct (request, front end) graphs";
 
 const URI_SHAPES: [&str; 12] = ["http://a.test?x=1", "http://a.test?", "http://a.test/p?", "http://a.test/?", "http://a.test//d", "http://u:pw@a.test/p", "http://A.TEST:80/P", "http://a.test/p#frag", "http://[::1]:8080/p", "http://a.test/%3F?%20&a=b?c", "https://a.test", "http://a.test/p;v=1/q"];
 
@@ -165,6 +165,9 @@ pub fn check_head_auth_optional(bytes: &[u8], s: &Spec, auth_optional: bool) -> 
     }
 }
 
+/// pseudo buffer size: the accessor calls (method, uri, version, headers_map) instead of a write
+const QUERY: usize = usize::MAX;
+
 struct HeadCfg {
     label: String,
     spec: Spec,
@@ -216,11 +219,27 @@ impl Sys for St {
         if matches!(self.w, W::CallBody(_)) && self.off == self.cfg.refb.len() {
             return vec![];
         }
-        (0..=self.cfg.refb.len() + 1).collect()
+        let mut v: Vec<usize> = (0..=self.cfg.refb.len() + 1).collect();
+        if matches!(self.w, W::Flow(_)) {
+            v.push(QUERY);
+        }
+        v
     }
     fn step(&mut self, out: &usize) -> Result<(), (String, String)> {
         let k = |c: &str| format!("C02:{}", c);
         let total = self.cfg.refb.len();
+        if *out == QUERY {
+            // the accessors of the state (headers_map() runs the request analysis early): they must
+            // succeed for a valid request and leave everything that follows unchanged - the search
+            // continues from the resulting state with every buffer size
+            if let W::Flow(f) = &mut self.w {
+                let _ = (f.method().clone(), f.uri().clone(), f.version());
+                if let Err(e) = f.headers_map() {
+                    return Err((k("query-fails"), format!("headers_map() failed on a valid request: {:?}", e)));
+                }
+            }
+            return Ok(());
+        }
         let mut buf = vec![0xAAu8; *out];
         let was_done = self.off == total;
         let r = self.write(&mut buf);
